@@ -483,7 +483,11 @@ def model_based_encoder_loss(
         )
         done_loss = jnp.where(
             environment_terminates,
-            masked_mse_loss(pred_done_t, target_done_t, prev_not_done),
+            masked_mse_loss(
+                pred_done_t[:, jnp.newaxis],
+                target_done_t[:, jnp.newaxis],
+                prev_not_done,
+            ),
             0.0,
         )
 
